@@ -311,7 +311,10 @@ class Parameter:
         if self.default is not NoDefault:
 
             def paramGetter(p_self):
-                return getattr(p_self, self.fieldName, self.default)
+                value = getattr(p_self, self.fieldName, self.default)
+                # a deleted parameter is backed up / copied / pickled as the NoDefault sentinel (see
+                # ParameterCollection.__getstate__): it still reads as its default
+                return self.default if value is NoDefault else value
 
         else:
 
